@@ -101,7 +101,7 @@ impl Parser {
         if nil_for_plain_type
             || !expected_return_type.eq_complex(
                 &Cow::Borrowed(supplied_type),
-                &TypecheckFlags::use_class(class_type).lhs_unwrap(true),
+                &TypecheckFlags::use_class(class_type),
             )
         {
             return Err(vec![new_err(
